@@ -38,6 +38,12 @@ def fragsOkM (frags : List Frag) : Bool :=
    | [] => false
    | f0 :: fs => !f0.tests.isEmpty || (!f0.selfBeginning && !fs.isEmpty))
 
+/-- a step SimplePathStrategy supports other than a final attribute step; the hypothesis of the
+    spelling theorems (`C17.simple_eq_generic_spellings_partial`) -/
+def sstepM (s : Step) : Bool := s.preds.isEmpty && simpleTM s.test && s.axis != .attribute
+
+def allSStepM (p : LocPath) : Bool := !p.isEmpty && p.all sstepM
+
 /-- is the location path in the scope of the fragment theorems: supported by
     SimplePathStrategy, its fragment list passes `fragsOkM`, and it is the path of that list -/
 def inScope (p : LocPath) : Option (Bool × Bool) :=
